@@ -127,4 +127,23 @@ void h_prim_free(void) {
 	if(method != ASFM_FREE_EVERYTHING) free(st);
 }
 
+/* ber_check_tags on a two-tag chain (EXPLICIT wrapper around a constructed type), plain one-octet tags and short lengths:
+ * the convention every constructed decoder relies on: consumed = both TLs, *last_length = inner length, or minus the number
+ * of end-of-contents markers still expected when the chain is indefinite */
+void h_ber_check_tags_chain(void) {
+	VF_BYTES(buf, 6); VF_SCALAR(size_t, size); VF_SCALAR(unsigned char, n0); VF_SCALAR(unsigned char, n1);
+	__CPROVER_assume(size <= 6 && n0 < 31 && n1 < 31);
+	mk_td(((ber_tlv_tag_t)n0 << 2) | ASN_TAG_CLASS_CONTEXT, ((ber_tlv_tag_t)n1 << 2) | ASN_TAG_CLASS_UNIVERSAL, 0, 2);
+	ber_tlv_len_t last = 12345; int form = 7;
+	asn_codec_ctx_t ctx; memset(&ctx, 0, sizeof(ctx));
+	asn_dec_rval_t rv = ber_check_tags(&ctx, &td, 0, buf, size, 0, 1, &last, &form);
+	VF_CANARY();
+	__CPROVER_assert(rv.consumed <= size && (rv.code == RC_OK || rv.consumed == 0), "C04/C05: consumed <= size; nothing consumed unless the whole chain was read (no context given)");
+	if(size >= 4 && buf[0] == (0xA0 | n0) && buf[2] == (0x20 | n1)) {
+		if(buf[1] == 0x80 && buf[3] == 0x80) __CPROVER_assert(rv.code == RC_OK && rv.consumed == 4 && last == -2, "C03: indefinite wrapper around an indefinite body: two end-of-contents markers are still expected");
+		else if(buf[1] < 0x80 && buf[3] < 0x80 && buf[1] == buf[3] + 2) __CPROVER_assert(rv.code == RC_OK && rv.consumed == 4 && last == buf[3], "C03: definite chain with consistent lengths: length of the innermost contents");
+		else if(buf[1] < 0x80 && buf[3] < 0x80) __CPROVER_assert(rv.code != RC_OK, "C04: inconsistent nested definite lengths are never accepted");
+	}
+}
+
 VF_NATIVE_MAIN
